@@ -34,10 +34,11 @@ Theorem C07_mean_filter_pixel : forall m f bc p, valid_mode m -> shape_ok (shape
   mean_at m f bc p = (sumZ (samples_spec m f bc p), Zlen (samples_spec m f bc p)).
 Proof. exact mean_at_spec. Qed.
 
-(* template_match: sum of squared differences over the window centred at p (no-overflow regime stated) *)
+(* template_match: sum of squared differences between the template and the window centred at p, the window taken under
+   the border rule (border-mapped pixels; zeros in constant mode; left out in ignore mode); no-overflow regime stated *)
 Theorem C07_template_match_is_ssd : forall ty m f t p, wf_ity ty -> valid_mode m -> shape_ok (shape f) ->
-  (forall k q, In k (all_positions (shape t)) ->
-      border_pos m (shape f) (padd p (psub k (centre (shape t)))) = Some q -> Z.abs (aget f q - aget t k) <= tmax ty) ->
+  (forall k v, In k (all_positions (shape t)) ->
+      window_sample m f p (psub k (centre (shape t))) = Some v -> Z.abs (v - aget t k) <= tmax ty) ->
   ssd_spec m f t p <= tmax ty ->
   tm_at (DInt ty) m f t p = ssd_spec m f t p.
 Proof. exact tm_at_spec. Qed.
